@@ -31,6 +31,15 @@ corr():        model <-> implementation: the Lean model (KawinV.SaveLoad with th
                points), all training orders x getter calls x toJson/fromJson (rebuilt = original at and between the training
                points; prediction of Q = that of a surrogate on which only Q was trained), and the Lean model of the fitting
                state (KawinV.SurrogateFit) on the same histories.
+               fromJson INTO A RECEIVER THAT IS NOT FRESH (check_receivers / run_receiver_case): the file of a trained surrogate is loaded into
+               a fresh object, into objects trained for the same quantities on OTHER points (coarser / shifted / other temperatures), into
+               an object that loaded an older file, into one trained for other quantities only and into the original itself (both classes,
+               all quantities): predictions = the original's at and between the training points (rtol 1e-8), stored data = the file's;
+               Lean model KawinV.SurrogateFit.loadInto on the same receiver histories (driver verb sg.load).
+               FILE NAMES of the histories: besides the plain names, groups of names with dots that are not the extension and that differ
+               only behind the last dot ('run_0.25h' / 'run_0.5h', 'a.b' / 'a.c', 'v1.0.npz' / 'v1.1.npz', in sub-directories, leading dot),
+               an earlier check point loaded after a later one was saved; after every save the directory holds exactly one file per
+               distinct name, called N or N + '.npz' (also compared with the files of the Lean store model).
                EVERY CLASS WITH A save / load PAIR x EVERY KEYWORD BRANCH OF save (saveload_pairs / save_variants / class_roundtrip /
                fields_oracle / check_classes): the package is walked for save<X> / load<X> method pairs (GenericModel and its subclasses
                PrecipitateModel, SinglePhaseModel, HomogenizationModel, GrainGrowthModel, Coupler; StrengthModel.save(compressed);
@@ -56,6 +65,7 @@ LEAN_MODULES = ['KawinV.Props.C20']
 MONITORED = [
     'a trained surrogate reproduces its training data at the training points (SciPy RBFInterpolator; oracle, rtol 1e-6; closely spaced grids 1e-5..1e-2 in x, 0.1..50 K, 1..1000 J/mol, linear and log fits, single axes: the unchanged code is within 1e-9)',
     'a surrogate rebuilt from its saved JSON file gives bit-identical predictions (oracle at random query points; all training orders of 2-3 quantities with 1 and 2 input axes, rtol 1e-8 at and between the training points; Q predicted as by a surrogate trained on Q alone)',
+    'a surrogate file loaded into a receiver that already holds trainings / an older file predicts as the original (oracle, rtol 1e-8, 7 receiver classes x all quantities; the fitting state is modelled: load_overwrites_models, load_into_receiver_equals_original)',
     'zip compression of np.savez_compressed vs np.savez is the identity on the arrays (the two branches of StrengthModel.save / saveRecordedPSD are modelled as tables of lines; the bytes on disk are compared through np.load on every case)',
 ]
 ASSUMPTIONS = [
@@ -2366,17 +2376,25 @@ def json_model_compare(res, ctx, rng, jlines, jpending, nrand):
 
 # ============================================================================ save / load HISTORIES in one process
 HIST_NAMES = ['ckpt', 'run_a', 'state.b', 'out_2']
+# names with dots that are NOT the extension, in groups whose members differ only behind the last dot (check points named after the
+# model time, a temperature, a version ...), some already carrying the suffix, some in sub-directories
+DOTTED_GROUPS = [['run_0.25h', 'run_0.5h', 'run_0.75h'], ['a.b', 'a.c', 'a'], ['x.5', 'x.25', 'x.125'], ['v1.0.npz', 'v1.1.npz', 'v1.npz'],
+                 ['T_723.15', 'T_723.65', 'T_723'], ['ckpts/alzr_0.25h', 'ckpts/alzr_0.5h', 'ckpts/alzr_1.5h'], ['out.d/state', 'out.d/state.1', 'out.e/state'],
+                 ['.hidden', '.hidden.1', '.hidden.2'], ['p.q/r.s', 'p.q/r.t', 'p.q/r']]
 HIST_IGNORED = set(PSDREC_SLOTS)        # the recorded size-distribution history is the known finding psd-recording-not-saved
 
 
-def gen_history(rng, kind):
+def gen_history(rng, kind, dotted=False):
     """a random sequence of solve / save / load calls on 2-3 file names which are REUSED: ('solve', i, steps) | ('save', i, name) |
     ('load', name); i indexes the live model objects (0 = the model under study, then every model a file was loaded into, in the
     order of the loads).  Every history starts with solve, save(f0), load(f0) and ends with solve, save(f0), load(f0): the
     second load of a name that has been loaded before must give the SECOND save point.  Names are spelt with and without
     the '.npz' suffix (the same file)."""
     names = rng.sample(HIST_NAMES, rng.choice([2, 2, 3]))
-    spell = lambda f: f + ('.npz' if rng.random() < 0.4 else '')
+    if dotted:           # dotted=True: names of ONE group (differing only behind the last dot)
+        g = rng.choice(DOTTED_GROUPS)
+        names = rng.sample(g, rng.choice([2, 3]))
+    spell = lambda f: f + ('.npz' if rng.random() < 0.4 and not f.endswith('.npz') else '')
     if kind == 'S':
         return gen_history_strength(rng, names, spell)
     steps = (lambda: rng.randint(15, 45)) if kind == 'P' else (lambda: rng.randint(3, 25))
@@ -2384,7 +2402,10 @@ def gen_history(rng, kind):
     loaded_solves_left = 1 if kind == 'P' else 4          # the first solve call of a precipitation model costs ~1 s (setup)
     ops = [('solve', 0, steps()), ('save', 0, spell(names[0])), ('load', spell(names[0]))]
     live, saved, started = 2, {names[0]}, {0}
-    for _ in range(rng.randint(3, 7) if kind == 'P' else rng.randint(4, 12)):
+    if dotted:           # an earlier check point is loaded AFTER a later one was saved under a name differing behind the last dot
+        ops += [('solve', 0, steps()), ('save', 0, spell(names[1])), ('load', spell(names[0]))]
+        live += 1; saved.add(names[1])
+    for _ in range((rng.randint(1, 4) if dotted else rng.randint(3, 7)) if kind == 'P' else rng.randint(4, 12)):
         k = rng.random()
         if k < 0.35:
             i = rng.randrange(live) if rng.random() < 0.5 else 0
@@ -2413,6 +2434,9 @@ def gen_history_strength(rng, names, spell):
     c0 = rng.random() < 0.5
     ops = [('solve', 0, steps()), ('save', 0, spell(names[0]), c0), ('load', canon_name(names[0]))]
     live, saved = 2, {names[0]}
+    if names[0] not in HIST_NAMES:
+        ops += [('solve', 0, steps()), ('save', 0, spell(names[1]), rng.random() < 0.5), ('load', canon_name(names[0]))]
+        live += 1; saved.add(names[1])
     for _ in range(rng.randint(4, 9)):
         k = rng.random()
         if k < 0.3:
@@ -2428,6 +2452,16 @@ def gen_history_strength(rng, names, spell):
 
 def canon_name(f):
     return f if f.endswith('.npz') else f + '.npz'
+
+
+def files_on_disk(d):
+    return sorted(os.path.relpath(os.path.join(r, x), d) for r, _ds, xs in os.walk(d) for x in xs)
+
+
+def name_class(f):
+    stem = f[:-4] if f.endswith('.npz') else f
+    return '%s%s%s' % ('dot-besides-the-extension' if '.' in os.path.basename(stem) else 'dot-in-directory-only' if '.' in stem else 'no-extra-dot',
+                       ',suffix-given' if f.endswith('.npz') else ',suffix-added', ',sub-directory' if '/' in f else '')
 
 
 def run_history(res, ctx, tmp, kind, cfg, ops, lines=None, pending=None):
@@ -2488,6 +2522,7 @@ def run_history(res, ctx, tmp, kind, cfg, ops, lines=None, pending=None):
         elif op[0] == 'save':
             i, f = op[1], op[2]
             before = snap(live[i])
+            os.makedirs(os.path.dirname(os.path.join(sub, f)), exist_ok=True)
             if kind == 'S':
                 live[i].save(os.path.join(sub, f), compressed=bool(op[3]))
                 store_branch[canon_name(f)] = 'compressed' if op[3] else 'uncompressed'
@@ -2501,6 +2536,22 @@ def run_history(res, ctx, tmp, kind, cfg, ops, lines=None, pending=None):
                             dict(base, at_op=k, file=f, model=mname), observed={n: brief(store[canon_name(f)][-1][n]) for n in changed[:4]}, required={n: brief(before[n]) for n in changed[:4]})
             mops.append('W %d %s' % (i, f))
             res.count('history-op:save-%s' % ('first-use-of-name' if len(store[canon_name(f)]) == 1 else 'name-reused'))
+            res.count('history-name:%s' % name_class(f))
+            # ORACLE on the files: one file per distinct name, the file of name N is called N or N + '.npz'
+            disk = files_on_disk(sub)
+            res.count('history-files-on-disk-checked')
+            if disk != sorted(store):
+                missing = [g for g in store if g not in disk]
+                extra = [g for g in disk if g not in store]
+                fdesc = dict(base, at_op=k, file=f, model=mname)
+                if len(disk) < len(store):
+                    res.violate('saveload-history:names-alias-one-file',
+                                '%s model: %d different file names were saved to (%s) but the directory holds %d file(s) %s: the save to %r went to a file another name uses'
+                                % (mname, len(store), sorted(store), len(disk), disk, f), fdesc, observed=disk, required=sorted(store))
+                else:
+                    res.violate('saveload-history:file-not-named-as-given',
+                                '%s model: after save(%r) the directory holds %s; expected the file(s) %s (the name given, with .npz appended unless it ends with it)'
+                                % (mname, f, extra, missing), fdesc, observed=disk, required=sorted(store))
         else:
             _, f = op
             fresh = build()
@@ -2561,7 +2612,7 @@ def run_history(res, ctx, tmp, kind, cfg, ops, lines=None, pending=None):
     res.sample(dict(model=mname, history=[list(o) for o in ops], loads_checked=nloads_checked), cap=4)
     if lines is not None and kind != 'S':
         lines.append('sl.hist %s %d %s %d %s 0 %d %s' % (kind, len(phases), ' '.join(phases), len(states), ' '.join(enc_slots(s) for s in states), len(mops), ' '.join(mops)))
-        pending.append(dict(loads=loads, names=names, desc=base))
+        pending.append(dict(loads=loads, names=names, desc=base, files=files_on_disk(sub)))
 
 
 def parse_hist(line):
@@ -2587,7 +2638,10 @@ def parse_hist(line):
                     shape = tuple(t.nat() for _ in range(t.nat()))
                     slots[name] = np.array(t.flts(), dtype=float).reshape(shape)
             outs.append(('ok', slots))
-    return {'outs': outs}
+    files = None
+    if t.i < len(t.t) and t.tok() == "F":
+        files = sorted(t.tok() for _ in range(t.nat()))
+    return {'outs': outs, 'files': files}
 
 
 def compare_histories(res, answers, pending):
@@ -2598,9 +2652,13 @@ def compare_histories(res, answers, pending):
             res.disagree('save/load history model error', p['desc'], 'ok', r['bad']); continue
         if len(r['outs']) != len(p['loads']):
             res.disagree('number of load calls', p['desc'], len(p['loads']), len(r['outs'])); continue
+        if r.get('files') is not None and 'files' in p:
+            res.count('history-model-files-compared')
+            if r['files'] != sorted(p['files']):
+                res.disagree('files that exist after the history (npzName of every name saved to)', p['desc'], sorted(p['files']), r['files']); continue
         for o, l in zip(r['outs'], p['loads']):
             if (o[0] == 'ok') != (l['outcome'] is None):
-                res.disagree('outcome of load() in a history', l['desc'], l['outcome'] or 'ok', o[:2]); break
+                res.disagree('outcome of load() in a history', l['desc'], l['outcome'] or 'ok', o[:1] if o[0] == 'ok' else o[:2]); break
             if o[0] == 'ok':
                 bad = [n for n in p['names'] if not same(o[1].get(n), l['after'][n])]
                 if bad:
@@ -2687,7 +2745,7 @@ def check_classes(res, ctx, tmp, rng, n_synth, n_gg, n_hist, oracle_only, errs):
         guarded(res, errs, 'saveload-graingrowth', dict(spec), lambda: run_graingrowth_case(res, tmp, spec))
     for _ in range(n_hist):
         cfg = hist_strength_cfg(rng)
-        ops = gen_history(rng, 'S')
+        ops = gen_history(rng, 'S', dotted=rng.random() < 0.5)
         guarded(res, errs, 'saveload-history-strength', dict(history=True, kind='S', cfg=dict(cfg), ops=[list(o) for o in ops]),
                 lambda: run_history(res, ctx, tmp, 'S', cfg, ops))
     try:
@@ -2711,12 +2769,12 @@ def check_histories(res, ctx, tmp, rng, nP, nD, oracle_only, errs):
         cfg = gen_diff_cfg(rng)
         cfg['rec'] = rng.choice(['on', 'off', 'on', 'off', 'switched-off'])       # recorded arrays present or None in the file
         cfg['rec'] = 'on' if cfg['rec'] == 'switched-off' else cfg['rec']
-        ops = gen_history(rng, 'D')
+        ops = gen_history(rng, 'D', dotted=_ % 2 == 1)
         guarded(res, errs, 'saveload-history-diffusion', dict(history=True, kind='D', cfg=dict(cfg), ops=[list(o) for o in ops]),
                 lambda: run_history(res, ctx, tmp, 'D', cfg, ops, lines, pending))
     for _ in range(nP):
         cfg = hist_precip_cfg(rng)
-        ops = gen_history(rng, 'P')
+        ops = gen_history(rng, 'P', dotted=_ % 2 == 0)
         guarded(res, errs, 'saveload-history-precipitation', dict(history=True, kind='P', cfg=dict(cfg), ops=[list(o) for o in ops]),
                 lambda: run_history(res, ctx, tmp, 'P', cfg, ops, lines, pending))
     if ctx.driver_ok and not oracle_only and lines:
@@ -3167,6 +3225,241 @@ def compare_orders(res, answers, pending):
                     res.disagree(what + ': number of nodes', p['desc'], nodes, m[1]); break
 
 
+# ---------------------------------------------------------------------------- fromJson into a receiver that is NOT fresh
+RECEIVER_KINDS = ['fresh', 'same-quantities-coarser-grid', 'same-quantities-shifted-grid', 'same-quantities-other-T', 'loaded-an-older-file',
+                  'other-quantities-only', 'original-itself']
+STALE_KEY = 'surrogate-receiver-keeps-model-of-quantity-not-in-file'
+
+
+def gen_receiver_spec(rng, system, forced=None):
+    """a training of 2-3 quantities (as for the training orders), the quantities that go into the FILE (all, or a proper subset:
+    the others are what an 'other-quantities-only' receiver was trained for)"""
+    f = forced or {}
+    spec = gen_orders_spec(rng, system, {k: f[k] for k in ('kernel', 'forms') if k in f} or None)
+    if system != 'binary' and f.get('curvature', rng.random() < 0.5):
+        a = spec['train']['drivingForce']
+        spec['train']['curvature'] = dict(x=[list(p) for p in a['x']], T=list(a['T']), log=False, broadcast=True, form=a['form'])
+    qs = list(spec['train'])
+    sub = f.get('file_quantities')
+    if sub is None:
+        sub = qs if rng.random() < 0.5 else sorted(rng.sample(qs, rng.randint(1, len(qs) - 1)), key=qs.index)
+    spec.update(check='rebuild-into-receiver', file_quantities=list(sub))
+    return spec
+
+
+def receiver_training(a, q, how):
+    """training arguments of quantity q on OTHER points than `a`: 'coarser' (an inner / the last point of the longest axis dropped),
+    'shifted' (composition / Gibbs-Thomson axis scaled by 1.07), 'other-T' (temperatures + 13 K)"""
+    b = copy.deepcopy(a)
+    first = 'T' if q == 'interfacialComposition' else 'x'
+    second = 'g' if q == 'interfacialComposition' else 'T'
+    if how == 'coarser':
+        ax = first if len(b[first]) >= len(b[second]) else second
+        if len(b[ax]) >= 3:
+            del b[ax][len(b[ax]) // 2 if len(b[ax]) > 3 else -1]
+        else:                                        # nothing to drop: another point set of the same size
+            other = 'g' if q == 'interfacialComposition' else 'x'
+            b[other] = (np.asarray(b[other], dtype=float) * 1.04).tolist()
+    elif how == 'shifted':
+        other = 'g' if q == 'interfacialComposition' else 'x'
+        b[other] = (np.asarray(b[other], dtype=float) * 1.07).tolist()
+    else:
+        b['T'] = [t + 13.0 for t in b['T']]
+    return b
+
+
+def data_same(a, b):
+    """stored training data of one quantity: {phase: {field: value}}; arrays and the nested lists JSON delivers compare by content"""
+    if isinstance(a, dict) or isinstance(b, dict):
+        return isinstance(a, dict) and isinstance(b, dict) and set(map(str, a)) == set(map(str, b)) and \
+            all(data_same(v, b[k] if k in b else b[str(k)]) for k, v in a.items())
+    if isinstance(a, (str, bool, type(None))) or isinstance(b, (str, bool, type(None))):
+        return type(a) == type(b) and a == b
+    try:
+        x, y = np.asarray(a, dtype=float), np.asarray(b, dtype=float)
+    except Exception:
+        return False
+    return x.shape == y.shape and bool(np.all((x == y) | (np.isnan(x) & np.isnan(y))))
+
+
+def receiver_fit_infos(z):
+    out = {}
+    for q in REFIT_ORDER:
+        mods = getattr(z, QUANT[q][1], None)
+        ph = phase_of(z, q)
+        out[q] = fit_info(mods[ph]) if mods is not None and ph in mods else None
+    return out
+
+
+def run_receiver_case(res, ctx, th, spec, tmp, lines=None, pending=None):
+    """ORACLE: `fromJson(file)` gives a surrogate that predicts like the ORIGINAL the file was written from, at the training points
+    and in between (rtol 1e-8), and that stores the file's training data - WHATEVER THE RECEIVER HELD BEFORE: nothing (fresh), a
+    training of the same quantities on other points (coarser / shifted / other temperatures), an older file, other quantities
+    only, or the original itself.  A quantity the file does not hold is untrained in the original: the receiver must not keep
+    a fitted model for it (finding `surrogate-receiver-keeps-model-of-quantity-not-in-file`).  The Lean model of the fitting state
+    (KawinV.SurrogateFit.loadInto) is run on the same receiver histories."""
+    vlib.use_repo()
+    from kawin.thermo import BinarySurrogate, MulticomponentSurrogate
+    binary = spec['system'] == 'binary'
+    cls = BinarySurrogate if binary else MulticomponentSurrogate
+    cname = cls.__name__
+    train = spec['train']
+    qs = list(train)
+    fq = [q for q in qs if q in spec['file_quantities']]
+    others = [q for q in qs if q not in fq]
+    memo = th if isinstance(th, MemoTherm) else MemoTherm(th)
+    kname, knorm = kernel_settings(spec['kernel'])
+    base = dict(spec, surrogate=cname)
+    qpts = {q: query_points(train[q], q, binary) for q in qs}
+    axes_of = lambda a, q: ((1 if (binary or q == 'interfacialComposition') else len(a['x'][0])) if len(a['T' if q == 'interfacialComposition' else 'x']) > 1 else 0) + \
+        (1 if len(a['g' if q == 'interfacialComposition' else 'T']) > 1 else 0)
+    # ---- the original and its file
+    s = make_surrogate(cls, memo, spec['kernel'])
+    for q in fq:
+        with _quiet():
+            ok, _ = _guard(res, 'surrogate-receiver-original-train:%s' % q, 'train %s' % q, base, lambda: train_quantity(s, q, train[q]))
+        if not ok:
+            return
+    f = os.path.join(tmp, 'recv_%d' % len(os.listdir(tmp)))
+    ok, _ = _guard(res, 'save-%s.toJson' % cname, 'toJson', base, lambda: s.toJson(f))
+    if not ok:
+        return
+    want = {}
+    for q in fq:
+        ok, out = _guard(res, 'surrogate-query-original:%s' % q, 'query %s on the original' % q, base, lambda: predict(s, q, qpts[q]))
+        if ok:
+            want[q] = out
+    file_data = {q: copy.deepcopy(getattr(s, QUANT[q][0])) for q in REFIT_ORDER if hasattr(s, QUANT[q][0])}
+    file_pts = {q: (axes_of(train[q], q), stored_points(s, q, phase_of(s, q))[2]) for q in fq if phase_of(s, q) in getattr(s, QUANT[q][0])}
+    older = {}
+    for kind in RECEIVER_KINDS:
+        if kind == 'other-quantities-only' and not others:
+            continue
+        desc = dict(base, receiver=kind)
+        recv_ops = []                                  # (quantity, axes, distinct points) of what the receiver was trained on, in order
+        failed = False
+        if kind == 'original-itself':
+            r = s
+            recv_ops = [(q,) + file_pts[q] for q in fq if q in file_pts]
+        else:
+            r = make_surrogate(cls, memo, spec['kernel'])
+            if kind == 'loaded-an-older-file':
+                if 'file' not in older:
+                    continue
+                ok, _ = _guard(res, 'reload-%s.fromJson' % cname, 'fromJson of an older file', desc, lambda: r.fromJson(older['file']))
+                if not ok:
+                    continue
+                recv_ops = list(older['ops'])
+            elif kind != 'fresh':
+                how = {'same-quantities-coarser-grid': 'coarser', 'same-quantities-shifted-grid': 'shifted', 'same-quantities-other-T': 'other-T'}.get(kind)
+                for q in (fq if how else others):
+                    a = receiver_training(train[q], q, how) if how else train[q]
+                    with _quiet():
+                        ok, _ = _guard(res, 'surrogate-receiver-train:%s:%s' % (q, kind), 'train %s on the receiver' % q, desc, lambda: train_quantity(r, q, a))
+                    if not ok:
+                        failed = True; break
+                    if phase_of(r, q) in getattr(r, QUANT[q][0]):
+                        recv_ops.append((q, axes_of(a, q), stored_points(r, q, phase_of(r, q))[2]))
+                if failed:
+                    continue
+                if kind == 'same-quantities-coarser-grid':
+                    fo = f + '_older'
+                    ok, _ = _guard(res, 'save-%s.toJson' % cname, 'toJson', desc, lambda: r.toJson(fo))
+                    if ok:
+                        older.update(file=fo, ops=list(recv_ops))
+        before = receiver_fit_infos(r)
+        ok, _ = _guard(res, 'reload-%s.fromJson-into-%s-receiver' % (cname, kind), 'fromJson into a receiver (%s)' % kind, desc, lambda: r.fromJson(f))
+        if not ok:
+            continue
+        res.case(('rebuild-into-receiver', cname, kind, tuple(fq), repr(spec['kernel']), spec['seed']), kind != 'fresh')
+        res.count('rebuild-into-receiver:' + kind)
+        for q in fq:
+            res.count('rebuild-into-receiver-quantity:%s' % q)
+            if q not in want:
+                continue
+            ok, out = _guard(res, 'surrogate-query-receiver:%s:%s' % (q, kind), 'query %s on the receiver after fromJson' % q, dict(desc, quantity=q), lambda: predict(r, q, qpts[q]))
+            if not ok:
+                continue
+            e = rel_err(out, want[q])
+            res.count('receiver-vs-original:' + ('bit-identical' if e == 0 else 'within-1e-8' if e <= 1e-8 else 'DIFFERENT'))
+            if not e <= 1e-8:
+                key = 'surrogate-rebuilt-differs:%s:fresh-receiver' % q if kind == 'fresh' else 'surrogate-rebuilt-into-trained-receiver-differs:%s' % q
+                res.violate(key, '%s: the file of a surrogate trained on %s was loaded (fromJson) into a receiver that held: %s; the receiver predicts %s differently from the original '
+                            '(relative deviation %.3g at the training points and in between)' % (cname, fq, kind, q, e), dict(desc, quantity=q),
+                            observed=[brief(o) for o in out], required=[brief(o) for o in want[q]])
+        for q, d in file_data.items():
+            got = getattr(r, QUANT[q][0], None)
+            res.count('receiver-stored-data-compared')
+            if not data_same(d, got):
+                res.violate('surrogate-receiver-training-data-not-the-files:%s' % q,
+                            '%s: after fromJson into a receiver (%s) the stored %s training data are not those of the file' % (cname, kind, q), dict(desc, quantity=q),
+                            observed=brief(repr(got)[:300]), required=brief(repr(d)[:300]))
+        for q in (others if kind == 'other-quantities-only' else []):
+            ph = phase_of(r, q)
+            res.count('receiver-quantity-not-in-file-checked')
+            if ph in getattr(r, QUANT[q][1]):
+                try:
+                    out = predict(r, q, tuple(np.asarray(p)[:2] for p in qpts[q]))
+                    obs = 'answers from the model fitted before the load: %s' % [brief(o) for o in out]
+                except Exception as e:
+                    obs = 'getter raises %s: %s' % (type(e).__name__, str(e)[:80])
+                res.violate(STALE_KEY, '%s: the file holds %s; the receiver had been trained for %s before: after fromJson its stored %s data are the file\'s (none for phase %s) but it still '
+                            'holds the fitted %s model, so its getter no longer passes through to the thermodynamics as the original does (%s)' % (cname, fq, q, q, ph, q, obs),
+                            dict(desc, quantity=q), observed=obs, required='no fitted %s model left: the original the file was written from is untrained for %s' % (q, q))
+        after = receiver_fit_infos(r)
+        if lines is not None:
+            tok = lambda q, ax, n, pay: 'T %s %d %d %d' % (QUANT[q][2], ax, n, pay)
+            mops = [tok(q, ax, n, 100 + i) for i, (q, ax, n) in enumerate(recv_ops)]
+            ftoks = ['%d %d %d' % (file_pts[q][0], file_pts[q][1], 1 + REFIT_ORDER.index(q)) if q in file_pts else '-' for q in REFIT_ORDER]
+            lines.append('sg.load %s %s %d %s %s' % (kname, 'T' if knorm else 'F', len(mops), ' '.join(mops), ' '.join(ftoks)))
+            pending.append(dict(desc=desc, before=before, after=after, file=[q for q in REFIT_ORDER if q in file_pts]))
+
+
+def compare_receivers(res, answers, pending):
+    for ans, p in zip(answers, pending):
+        t = Toks(ans)
+        res.count('surrogate-load-model-compared')
+        if not t.ok:
+            res.disagree('surrogate load-into-receiver model error', p['desc'], 'ok', t.err); continue
+        for tag, infos in (('R', p['before']), ('L', p['after'])):
+            assert t.tok() == tag
+            stop = False
+            for q in REFIT_ORDER:
+                tk = t.tok()
+                m = None
+                if tk != '-':
+                    m = (tk == 'T', t.nat(), t.nat())
+                im = infos[q]
+                what = '%s kernel of the receiver %s fromJson' % (q, 'before' if tag == 'R' else 'after')
+                if (m is None) != (im is None):
+                    res.disagree(what + ' exists', p['desc'], im is not None, m is not None); stop = True; break
+                if m is None:
+                    continue
+                nodes, normalized = im
+                if normalized is not None and normalized != m[0]:
+                    res.disagree(what + ': fitted with normalised inputs', p['desc'], normalized, m[0]); stop = True; break
+                if nodes is not None and nodes != m[1]:
+                    res.disagree(what + ': number of nodes', p['desc'], nodes, m[1]); stop = True; break
+                if tag == 'L' and q in p['file'] and m[2] != 1 + REFIT_ORDER.index(q):
+                    res.disagree(what + ': fitted on the data of the file', p['desc'], 'file', 'payload %d' % m[2]); stop = True; break
+            if stop:
+                break
+
+
+def check_receivers(res, ctx, thb, tht, rng, tmp, oracle_only, errs, scale=1):
+    lines, pending = [], []
+    memo_b, memo_t = MemoTherm(thb), MemoTherm(tht)
+    forced_b = [dict(kernel=None, file_quantities=['drivingForce', 'diffusivity', 'interfacialComposition']), dict(file_quantities=['drivingForce'])]
+    for k in range(ctx.n(2, 10) * scale):
+        spec = gen_receiver_spec(rng, 'binary', forced_b[k] if k < len(forced_b) else None)
+        guarded(res, errs, 'surrogate-receiver-case', spec, lambda: run_receiver_case(res, ctx, memo_b, spec, tmp, lines, pending))
+    for k in range(ctx.n(1, 5) * scale):
+        spec = gen_receiver_spec(rng, 'multi', dict(kernel=None, curvature=True, file_quantities=['drivingForce', 'diffusivity', 'curvature']) if k == 0 else None)
+        guarded(res, errs, 'surrogate-receiver-case', spec, lambda: run_receiver_case(res, ctx, memo_t, spec, tmp, lines, pending))
+    if ctx.driver_ok and not oracle_only and lines:
+        guarded(res, errs, 'surrogate-load-model-comparison', {}, lambda: compare_receivers(res, vlib.run_driver(PROP, lines), pending))
+
+
 def check_surrogate_training(res, ctx, thb, tht, rng, tmp, oracle_only, errs, scale=1):
     """training grids (closely spaced points) and training orders x rebuild, binary Al-Zr and ternary Ni-Al-Cr"""
     forced = [dict(kernel=None, dx=5e-4, log=False, nT=1, nx=4), dict(dx=1e-4, log=False, nT=3, nx=3, broadcast=True, dT=10.0),
@@ -3218,7 +3511,7 @@ def corr(ctx, scale=1, oracle_only=False, only=None):
     res.monitored = list(MONITORED)
     res.rule = ('real Al-Zr KWN runs (random x0, T, class count, adaptive on/off, Euler/RK4, PSD recording on/off; thorough: + Ni-Cr-Al, 5-precipitate Al-Mg-Si) saved between solve calls and after completion; '
                 'random SinglePhaseModel runs (1-3 solutes, 5-40 nodes, 1-3 solve calls, recording on/off/switched off/switched on/removed; thorough: + real Ni-Cr(-Al) thermodynamics, HomogenizationModel); '
-                'untrained getters on random points of the real Al-Zr / Ni-Cr-Al thermodynamics (phases by default or named); every getter of both surrogate classes on a recording mock thermodynamics in every call form (default, all keywords, each keyword alone, positional, positional extras) + random calls, non-default value for every argument; untrained and partially trained MulticomponentSurrogate of Al-Mg-Si (5 precipitate phases) for every phase; tiny trained surrogates (linear/log, broadcast or point lists); random arrays through JSON; save/load histories: 10 diffusion + 2 Al-Zr precipitation histories per quick run (solve, save(name), load(name) prefix; 3-12 random solve/save/load calls on the original and on loaded models, 2-3 names reused, both spellings; solve, save, load of a name loaded before as suffix); training grids: 9 binary + 3 ternary specs (first ones forced: linear fit dx 5e-4 single T; dx 1e-4 x dT 10 grid; log fit dx 1e-5; point list dx 3e-5 dT 0.5), all quantities; training orders: 4 binary + 2 ternary specs x (all permutations + all ordered pairs, getter calls in between) (first ones forced: default kernel settings, 2-axis diffusivity with 1-axis driving force). '
+                'untrained getters on random points of the real Al-Zr / Ni-Cr-Al thermodynamics (phases by default or named); every getter of both surrogate classes on a recording mock thermodynamics in every call form (default, all keywords, each keyword alone, positional, positional extras) + random calls, non-default value for every argument; untrained and partially trained MulticomponentSurrogate of Al-Mg-Si (5 precipitate phases) for every phase; tiny trained surrogates (linear/log, broadcast or point lists); random arrays through JSON; save/load histories: 10 diffusion + 2 Al-Zr precipitation histories per quick run (solve, save(name), load(name) prefix; 3-12 random solve/save/load calls on the original and on loaded models, 2-3 names reused, both spellings; solve, save, load of a name loaded before as suffix); training grids: 9 binary + 3 ternary specs (first ones forced: linear fit dx 5e-4 single T; dx 1e-4 x dT 10 grid; log fit dx 1e-5; point list dx 3e-5 dT 0.5), all quantities; training orders: 4 binary + 2 ternary specs x (all permutations + all ordered pairs, getter calls in between) (first ones forced: default kernel settings, 2-axis diffusivity with 1-axis driving force); fromJson into receivers: 2 binary + 1 ternary spec x 6-7 receivers (fresh, same quantities on a coarser / shifted / other-T grid, an older file loaded before, other quantities only, the original itself; first ones forced: all quantities in the file, driving force only in the file); half of the diffusion histories and one precipitation history use a group of dotted file names differing behind the last dot (earlier check point loaded after the later one was saved). '
                 'every class with a save/load pair x every boolean keyword of save: StrengthModel (compressed / uncompressed) and the recorded-PSD files (compressed / uncompressed x phase=all / named) at every save point of the precipitation cases, 8 synthetic strength histories (distinct, neighbouring doubles, late nucleation, single step, no particles; 1-3 phases), 1 HomogenizationModel on real Ni-Cr thermodynamics, 2 GrainGrowthModel (+ Coupler), 1 history of a StrengthModel coupled to a run started from a particle population (solve / save(name, compressed) / load, both formats on one name); '
                 'non-trivial = populated size distribution / evolved profile / a getter evaluated / every saved field populated and pairwise distinct; distinct = configuration + save point (+ class + branch)')
     rng = ctx.rng
@@ -3296,8 +3589,13 @@ def corr(ctx, scale=1, oracle_only=False, only=None):
             if only in (None, 'surrogate', 'surrogate-training'):
                 rs = _random.Random('C20-training-%d-%d' % (ctx.seed, _CALLS['n']))
                 check_surrogate_training(res, ctx, kwnruns.therm_binary(), kwnruns.therm_ternary(), rs, tmp, oracle_only, errs, scale)
+            res.extra['section_s']['surrogate training grids / orders'] = round(_time.time() - t2, 1)
+            t2b = _time.time()
+            if only in (None, 'surrogate', 'surrogate-receivers'):
+                rr = _random.Random('C20-receivers-%d-%d' % (ctx.seed, _CALLS['n']))
+                check_receivers(res, ctx, kwnruns.therm_binary(), kwnruns.therm_ternary(), rr, tmp, oracle_only, errs, scale)
             t3 = _time.time()
-            res.extra['section_s']['surrogate training grids / orders'] = round(t3 - t2, 1)
+            res.extra['section_s']['surrogate file loaded into non-fresh receivers'] = round(t3 - t2b, 1)
             if only in (None, 'classes', 'precipitation', 'diffusion', 'history'):
                 rc = _random.Random('C20-classes-%d-%d' % (ctx.seed, _CALLS['n']))
                 if only in (None, 'classes', 'diffusion') and not ctx.thorough:
@@ -3367,6 +3665,9 @@ def replay(ctx, entry):
             elif case.get('check') == 'training-grid':
                 th = kwnruns.therm_binary() if case['system'] == 'binary' else kwnruns.therm_ternary()
                 guarded(res, [], 'surrogate-training-grid-case', dict(case), lambda: run_grid_case(res, th, case))
+            elif case.get('check') == 'rebuild-into-receiver':
+                th = kwnruns.therm_binary() if case['system'] == 'binary' else kwnruns.therm_ternary()
+                guarded(res, [], 'surrogate-receiver-case', dict(case), lambda: run_receiver_case(res, ctx, th, case, tmp))
             elif case.get('check') == 'training-orders':
                 th = kwnruns.therm_binary() if case['system'] == 'binary' else kwnruns.therm_ternary()
                 guarded(res, [], 'surrogate-training-orders-case', dict(case), lambda: run_orders_case(res, ctx, th, case, tmp))
